@@ -50,6 +50,10 @@ def cases(tier, seed):
     for m in ms:
         for b in bs:
             yield dict(kind='lattice', m=round(m, 6), b=round(b, 6))
+    # the same lattice shifted off every round number (slopes and intercepts with four and more decimals)
+    for m in ms[:-1]:
+        for b in bs[:-1]:
+            yield dict(kind='lattice', m=round(m + 0.0137, 6), b=round(b + 0.0449, 6))
     vals = [1, 10, 100, 1000, 10000]
     yield dict(kind='structural', k=3, vals=vals)
     yield dict(kind='structural', k=4, vals=vals)
@@ -112,6 +116,26 @@ def structural(res, what, sig, fit, rfi, one, check_model=True):
             return False
         if not np.allclose(got_i, want_i, rtol=1e-12, atol=0):
             res.violation(sig + ':integer-input', '%s: std_crv(%r as %s) = %s, as floats %s' % (what, xi, getattr(typ, '__name__', typ), got_i.tolist()[:3], want_i.tolist()[:3]), one)
+            return False
+    # a caller's buffer evaluated, changed in place, evaluated again (the answer describes the values the buffer holds NOW), and a returned
+    # array changed in place by the caller (later answers are unaffected)
+    for fn_name, fn in (('std_crv', std_crv),) + ((('beads_model', beads_model),) if check_model else ()):
+        buf = xs.copy()
+        y1 = np.array(fn(buf), dtype=float)
+        buf *= 2.0
+        y2 = np.array(fn(buf), dtype=float)
+        y2_fresh = np.array(fn(xs * 2.0), dtype=float)
+        buf[:] = xs
+        r3 = fn(buf)
+        y3 = np.array(r3, dtype=float)
+        try:
+            r3 *= 3.0
+        except Exception:
+            pass
+        y4 = np.array(fn(buf), dtype=float)
+        if y2.tobytes() != y2_fresh.tobytes() or y3.tobytes() != y1.tobytes() or y4.tobytes() != y1.tobytes():
+            res.violation(sig + ':buffer-history', '%s: %s on a buffer that was changed in place between calls (or whose earlier result the caller changed) does not give the values of a fresh array: %s / %s / %s vs %s' % (
+                what, fn_name, y2.tolist()[:2], y3.tolist()[:2], y4.tolist()[:2], y1.tolist()[:2]), one)
             return False
     neg = np.asarray(std_crv(-xs), dtype=float)
     if not np.all(np.isfinite(pos)) or not np.array_equal(neg, -pos):
